@@ -28,6 +28,9 @@ func ConstInt(v int64) *Term { return &Term{Op: "const", Sort: IntSort, Val: uin
 
 var IntMode = os.Getenv("VERIF_INTMODE") != ""
 
+var intOpMap = map[string]string{"bvadd": "+", "bvsub": "-", "bvneg": "-", "bvmul": "*", "bvslt": "<", "bvsle": "<=", "bvsgt": ">", "bvsge": ">=", "intdiv": "div", "intmod": "mod"}
+
+
 func (s Sort) String() string {
 	if s.Kind == 'B' {
 		return "Bool"
@@ -121,7 +124,7 @@ func (t *Term) String() string {
 		sb.WriteByte('(')
 		op := strings.TrimPrefix(t.Op, "uf:")
 		if IntMode && len(t.Args) > 0 && t.Args[0].Sort.Kind == 'V' && t.Args[0].Sort.Width == 64 {
-			if m, ok := map[string]string{"bvadd": "+", "bvsub": "-", "bvneg": "-", "bvmul": "*", "bvslt": "<", "bvsle": "<=", "bvsgt": ">", "bvsge": ">=", "bvsrem": "mod", "bvsdiv": "div", "bvurem": "mod", "bvudiv": "div"}[op]; ok {
+			if m, ok := intOpMap[op]; ok {
 				op = m
 			}
 		}
@@ -314,6 +317,15 @@ func BVBin(op string, a, b *Term) *Term {
 			return ConstBV(uint64(a.Signed()>>sh), w)
 		}
 	}
+	if IntMode && w == 64 {
+		switch op {
+		case "bvsdiv", "bvsrem":
+			return intDivRem(op, a, b)
+		case "bvadd", "bvsub", "bvmul":
+		default:
+			panic(Unsupported{"64-bit operation " + op + " in integer mode (run this harness in bit-vector mode)"})
+		}
+	}
 	if op == "bvadd" || op == "bvsub" {
 		if b.IsConst() && b.Val == 0 {
 			return a
@@ -325,9 +337,37 @@ func BVBin(op string, a, b *Term) *Term {
 	return mk(op, a.Sort, a, b)
 }
 
+// intDivRem encodes Go's truncated signed division on mathematical integers (SMT div/mod are Euclidean).
+func intDivRem(op string, a, b *Term) *Term {
+	zero := ConstBV(0, 64)
+	neg := func(x *Term) *Term { return BVNeg(x) }
+	div := func(x, y *Term) *Term { return mk("intdiv", x.Sort, x, y) }
+	aNeg := BVCmp("bvslt", a, zero)
+	var q *Term
+	if b.IsConst() && b.Signed() > 0 {
+		q = Ite(aNeg, neg(div(neg(a), b)), div(a, b))
+	} else if b.IsConst() && b.Signed() < 0 {
+		nb := ConstBV(uint64(-b.Signed()), 64)
+		q = Ite(aNeg, div(neg(a), nb), neg(div(a, nb)))
+	} else {
+		bNeg := BVCmp("bvslt", b, zero)
+		q = Ite(aNeg, Ite(bNeg, div(neg(a), neg(b)), neg(div(neg(a), b))), Ite(bNeg, neg(div(a, neg(b))), div(a, b)))
+	}
+	if op == "bvsdiv" {
+		return q
+	}
+	return mk("bvsub", a.Sort, a, mk("bvmul", a.Sort, b, q))
+}
+
 func BVCmp(op string, a, b *Term) *Term {
 	if a.Sort != b.Sort {
 		panic(fmt.Sprintf("BVCmp %s sort mismatch %v %v", op, a.Sort, b.Sort))
+	}
+	if IntMode && a.Sort.Kind == 'V' && a.Sort.Width == 64 && !(a.IsConst() && b.IsConst()) {
+		switch op {
+		case "bvult", "bvule", "bvugt", "bvuge":
+			panic(Unsupported{"unsigned 64-bit comparison in integer mode"})
+		}
 	}
 	if a.IsConst() && b.IsConst() {
 		switch op {
@@ -380,6 +420,17 @@ func Resize(a *Term, to int, signed bool) *Term {
 		}
 		return ConstBV(a.Val, to)
 	}
+	if IntMode && from == 64 {
+		// Int -> narrow bit-vector: wraps like Go
+		return &Term{Op: fmt.Sprintf("(_ int2bv %d)", to), Sort: BV(to), Args: []*Term{a}}
+	}
+	if IntMode && to == 64 {
+		nat := &Term{Op: "bv2nat", Sort: BV(64), Args: []*Term{a}}
+		if !signed {
+			return nat
+		}
+		return Ite(BVCmp("bvslt", a, ConstBV(0, from)), mk("bvsub", BV(64), nat, ConstBV(uint64(1)<<uint(from), 64)), nat)
+	}
 	if to < from {
 		return &Term{Op: fmt.Sprintf("(_ extract %d 0)", to-1), Sort: BV(to), Args: []*Term{a}}
 	}
@@ -408,7 +459,7 @@ type Solver struct {
 func NewSolver(bin string, timeoutMs int) (*Solver, error) {
 	args := []string{"-in"}
 	if strings.Contains(bin, "cvc5") {
-		args = []string{"--incremental", "--lang=smt2", "--produce-models"}
+		args = []string{"--incremental", "--lang=smt2", "--produce-models", fmt.Sprintf("--tlimit-per=%d", timeoutMs)}
 		if extra := os.Getenv("VERIF_CVC5_ARGS"); extra != "" {
 			args = append(args, strings.Fields(extra)...)
 		}
@@ -464,7 +515,7 @@ func (s *Solver) ref(t *Term) string {
 	}
 	op := strings.TrimPrefix(t.Op, "uf:")
 	if IntMode && len(t.Args) > 0 && t.Args[0].Sort.Kind == 'V' && t.Args[0].Sort.Width == 64 {
-		if m, ok := map[string]string{"bvadd": "+", "bvsub": "-", "bvneg": "-", "bvmul": "*", "bvslt": "<", "bvsle": "<=", "bvsgt": ">", "bvsge": ">=", "bvsrem": "mod", "bvsdiv": "div", "bvurem": "mod", "bvudiv": "div"}[op]; ok {
+		if m, ok := intOpMap[op]; ok {
 			op = m
 		}
 	}
@@ -522,6 +573,13 @@ func (s *Solver) Sync(pc []*Term) {
 		s.send("(push 1)")
 		s.send(fmt.Sprintf("(assert %s)", r))
 		s.stack = append(s.stack, c)
+	}
+}
+
+// Prepare sends the definitions of terms ahead of a check, so that they can be evaluated in its model.
+func (s *Solver) Prepare(ts ...*Term) {
+	for _, t := range ts {
+		s.ref(t)
 	}
 }
 
@@ -600,7 +658,7 @@ func (s *Solver) EndModel() {
 	}
 }
 
-// Values evaluates terms in the current model (after a Sat Check, before EndModel).
+// Values evaluates terms in the current model (after a Sat Check, before EndModel) with one get-value command.
 func (s *Solver) Values(ts map[string]*Term) map[string]uint64 {
 	out := map[string]uint64{}
 	names := make([]string, 0, len(ts))
@@ -608,6 +666,8 @@ func (s *Solver) Values(ts map[string]*Term) map[string]uint64 {
 		names = append(names, n)
 	}
 	sort.Strings(names)
+	var ask []string
+	var refs []string
 	for _, n := range names {
 		t := ts[n]
 		if t.IsConst() {
@@ -624,9 +684,113 @@ func (s *Solver) Values(ts map[string]*Term) map[string]uint64 {
 			out[n] = 0
 			continue
 		}
-		s.send(fmt.Sprintf("(get-value (%s))", s.ref(t)))
-		line := s.readBalanced()
-		out[n] = parseValue(line)
+		ask = append(ask, n)
+		refs = append(refs, s.ref(t))
+	}
+	for len(ask) > 0 {
+		k := len(ask)
+		if k > 400 {
+			k = 400
+		}
+		s.send("(get-value (" + strings.Join(refs[:k], " ") + "))")
+		resp := s.readBalanced()
+		vals := parseValueList(resp)
+		if len(vals) != k {
+			panic(fmt.Sprintf("get-value: expected %d values, got %d in %q", k, len(vals), resp))
+		}
+		for i := 0; i < k; i++ {
+			out[ask[i]] = vals[i]
+		}
+		ask, refs = ask[k:], refs[k:]
+	}
+	return out
+}
+
+type sexp struct {
+	atom string
+	list []*sexp
+}
+
+func parseSexp(s string, pos int) (*sexp, int) {
+	for pos < len(s) && (s[pos] == ' ' || s[pos] == '\n' || s[pos] == '\t' || s[pos] == '\r') {
+		pos++
+	}
+	if pos >= len(s) {
+		return nil, pos
+	}
+	if s[pos] == '(' {
+		pos++
+		n := &sexp{list: []*sexp{}}
+		for {
+			for pos < len(s) && (s[pos] == ' ' || s[pos] == '\n' || s[pos] == '\t' || s[pos] == '\r') {
+				pos++
+			}
+			if pos >= len(s) {
+				return n, pos
+			}
+			if s[pos] == ')' {
+				return n, pos + 1
+			}
+			var c *sexp
+			c, pos = parseSexp(s, pos)
+			if c == nil {
+				return n, pos
+			}
+			n.list = append(n.list, c)
+		}
+	}
+	st := pos
+	for pos < len(s) && s[pos] != ' ' && s[pos] != '\n' && s[pos] != '(' && s[pos] != ')' && s[pos] != '\t' && s[pos] != '\r' {
+		pos++
+	}
+	return &sexp{atom: s[st:pos]}, pos
+}
+
+func sexpValue(x *sexp) uint64 {
+	if x.list == nil {
+		a := x.atom
+		switch {
+		case a == "true":
+			return 1
+		case a == "false":
+			return 0
+		case strings.HasPrefix(a, "#x"):
+			var v uint64
+			fmt.Sscanf(a[2:], "%x", &v)
+			return v
+		case strings.HasPrefix(a, "#b"):
+			var v uint64
+			for _, c := range a[2:] {
+				v = v<<1 | uint64(c-'0')
+			}
+			return v
+		}
+		var v int64
+		fmt.Sscanf(a, "%d", &v)
+		return uint64(v)
+	}
+	if len(x.list) == 2 && x.list[0].atom == "-" {
+		return uint64(-int64(sexpValue(x.list[1])))
+	}
+	if len(x.list) == 3 && x.list[0].atom == "_" && strings.HasPrefix(x.list[1].atom, "bv") {
+		var v uint64
+		fmt.Sscanf(x.list[1].atom[2:], "%d", &v)
+		return v
+	}
+	panic(fmt.Sprintf("cannot parse model value %+v", x))
+}
+
+func parseValueList(resp string) []uint64 {
+	top, _ := parseSexp(resp, 0)
+	if top == nil || top.list == nil {
+		panic("bad get-value response: " + resp)
+	}
+	out := make([]uint64, 0, len(top.list))
+	for _, pair := range top.list {
+		if len(pair.list) != 2 {
+			panic("bad get-value pair in: " + resp)
+		}
+		out = append(out, sexpValue(pair.list[1]))
 	}
 	return out
 }
@@ -650,52 +814,6 @@ func (s *Solver) readBalanced() string {
 			return sb.String()
 		}
 	}
-}
-
-func parseValue(s string) uint64 {
-	// forms: ((term #x0a)) ((term #b101)) ((term true)) ((term (_ bv5 64)))
-	s = strings.TrimSpace(s)
-	s = strings.TrimSuffix(s, "))")
-	if i := strings.LastIndex(s, "#x"); i >= 0 {
-		var v uint64
-		fmt.Sscanf(s[i+2:], "%x", &v)
-		return v
-	}
-	if i := strings.LastIndex(s, "#b"); i >= 0 {
-		var v uint64
-		for _, c := range s[i+2:] {
-			if c == '0' || c == '1' {
-				v = v<<1 | uint64(c-'0')
-			}
-		}
-		return v
-	}
-	if i := strings.LastIndex(s, "(_ bv"); i >= 0 {
-		var v uint64
-		fmt.Sscanf(s[i+5:], "%d", &v)
-		return v
-	}
-	if strings.HasSuffix(s, "true") {
-		return 1
-	}
-	if strings.HasSuffix(s, "false") {
-		return 0
-	}
-	// Int: "((name 5" or "((name (- 5)"
-	s = strings.TrimSuffix(strings.TrimSpace(s), ")")
-	neg := false
-	if i := strings.LastIndex(s, "(- "); i >= 0 {
-		neg = true
-		s = s[i+3:]
-	} else if i := strings.LastIndex(s, " "); i >= 0 {
-		s = s[i+1:]
-	}
-	var v int64
-	fmt.Sscanf(strings.TrimSpace(s), "%d", &v)
-	if neg {
-		v = -v
-	}
-	return uint64(v)
 }
 
 func (s *Solver) DeclareFun(name string, args []Sort, res Sort) {
